@@ -4,7 +4,7 @@ CONSTANTS
   Vals = {"a"}
   MaxDepth = 3
   PosVals <- PosSome
-  Thens = {"none", "assign"}
+  Thens = {"assign"}
 INVARIANT TypeOK
 INVARIANT ProjectionFaithful
 INVARIANT EnvExact
